@@ -66,7 +66,8 @@ class DateTimeArray(MutableSequence[DateTime]):
             IndexError: If index is out of range.
         """
         if isinstance(index, int):
-            entry = self._array[index].item()
+            # bool is an int: NumPy would treat it as a mask.
+            entry = self._array[int(index)].item()
             as_tuple = TimeValueTuple.from_cvi(*entry)
             return DateTime.from_tuple(as_tuple)
         elif isinstance(index, slice):
@@ -103,7 +104,7 @@ class DateTimeArray(MutableSequence[DateTime]):
         if isinstance(index, int):
             if not isinstance(value, DateTime):
                 raise invalid_arg_type("value", "DateTime", value)
-            self._array[index] = value.to_tuple().to_cvi()
+            self._array[int(index)] = value.to_tuple().to_cvi()
         elif isinstance(index, slice):
             if not isinstance(value, Iterable):
                 raise invalid_arg_type("value", "iterable of DateTime", value)
@@ -160,7 +161,9 @@ class DateTimeArray(MutableSequence[DateTime]):
             TypeError: If index is an invalid type.
             IndexError: If index is out of range.
         """
-        if isinstance(index, (int, slice)):
+        if isinstance(index, int):
+            self._array = np.delete(self._array, int(index))
+        elif isinstance(index, slice):
             self._array = np.delete(self._array, index)
         else:
             raise invalid_arg_type("index", "int or slice", index)
@@ -177,7 +180,7 @@ class DateTimeArray(MutableSequence[DateTime]):
             raise invalid_arg_type("value", "DateTime", value)
         lower = -len(self._array)
         upper = len(self._array)
-        index = min(max(index, lower), upper)
+        index = min(max(int(index), lower), upper)
         as_cvi = value.to_tuple().to_cvi()
         self._array = np.insert(self._array, index, as_cvi)
 
